@@ -22,6 +22,13 @@ Theorem gate_monotone : forall v v' f, (0 <= v <= v')%Z ->
 Proof. exact gate_monotone_lemma. Qed.
 Print Assumptions gate_monotone.
 
+(* ... for every modelled entry point, not only for the gate: whatever it emitted at (quiet?, v) it emits at (not quiet, v')
+   for every v' >= v - "raising the verbosity or leaving quiet mode never removes anything that was shown before" *)
+Theorem emits_monotone : forall k a m q v v' f, (0 <= v <= v')%Z ->
+  emits k a m q v f = true -> emits k a m false v' f = true.
+Proof. exact emits_monotone_lemma. Qed.
+Print Assumptions emits_monotone.
+
 Theorem quiet_silent : forall v f, may_write true v f = false.
 Proof. exact quiet_silent_lemma. Qed.
 Print Assumptions quiet_silent.
